@@ -170,6 +170,9 @@ func checkC20(c *Ctx) {
 		"mutual": "function f(n) {\n  if (n > 0) {\n    return g(n - 1)\n  }\n  return 7\n}\nfunction g(n) {\n  if (n > 0) {\n    return f(n - 1)\n  }\n  return 7\n}\n",
 		"matchb": "function f(n) {\n  if (n > 0) {\n    match (n) { z => {\n      return f(z - 1)\n    } }\n  }\n  return 7\n}\n",
 		"matche": "function f(n) {\n  if (n > 0) {\n    return match (n) { z => f(z - 1) }\n  }\n  return 7\n}\n",
+		// the recursive call in argument position: the outer call's frame exists only after its arguments are evaluated
+		"argpos":  "function idz(x, y) {\n  return x\n}\nfunction f(n) {\n  if (n > 0) {\n    return idz(f(n - 1), n)\n  }\n  return 7\n}\n",
+		"argpos2": "function idz(x, y) {\n  return y\n}\nfunction f(n) {\n  if (n > 0) {\n    return idz(n, idz(1, f(n - 1)))\n  }\n  return 7\n}\n",
 	}
 	depths := []int{10, 1000, 2000, 4000, 4094, 4095, 4096, 4097, 5000, 100000}
 	if c.Quick {
@@ -178,7 +181,7 @@ func checkC20(c *Ctx) {
 	var bjobs []Job
 	var bmeta []string
 	var bneed []int
-	perLevel := map[string]int{"direct": 1, "mutual": 1, "matchb": 2, "matche": 2}
+	perLevel := map[string]int{"direct": 1, "mutual": 1, "matchb": 2, "matche": 2, "argpos": 1, "argpos2": 1}
 	// what runs thousands of times before the recursion: completed calls and match scopes, and every way a
 	// control-flow signal can leave a call or a match scope (none of them may leave a frame behind)
 	warmFns := "function w() {\n  return 1\n}\nfunction wr(n) {\n  return match (n) { z => match (z % 2) { 0 => {\n    return 1\n  }, _ => 2 } }\n}\n" +
